@@ -328,10 +328,16 @@ type watched struct {
 
 var current atomic.Pointer[watched]
 
-// StartWatchdog starts a goroutine that turns a case running longer than limit into a "suspected
+var watchdogOnce sync.Once
+
+// StartWatchdog starts (once per process) a goroutine that turns a case running longer than limit into a "suspected
 // hang" record: the case is written to the shard statistics (Stats.Hang) and the process exits with
 // status 3. The driver confirms the hang in a fresh process before it counts as a violation.
 func StartWatchdog(limit time.Duration) {
+	watchdogOnce.Do(func() { startWatchdog(limit) })
+}
+
+func startWatchdog(limit time.Duration) {
 	go func() {
 		for {
 			time.Sleep(time.Second)
@@ -348,6 +354,12 @@ func StartWatchdog(limit time.Duration) {
 		}
 	}()
 }
+
+// Watch publishes the case about to run to the watchdog (for loops that do not go through Run).
+func Watch(id string, c interface{}) { current.Store(&watched{id: id, c: c, start: time.Now()}) }
+
+// Unwatch clears it.
+func Unwatch() { current.Store(nil) }
 
 // RunWatched is Run with the current case published to the watchdog.
 func RunWatched[C any](t *testing.T, p Prop[C]) {
@@ -370,7 +382,9 @@ func Run[C any](t *testing.T, p Prop[C]) {
 	rapid.Check(t, func(rt *rapid.T) {
 		c := p.Gen(rt)
 		r := &Rec{}
+		current.Store(&watched{id: p.ID, c: c, start: time.Now()})
 		SafeCheck(p, c, r)
+		current.Store(nil)
 		if Account(p.ID, c, r) {
 			rt.Fatalf("VIOLATION %s: %s", p.ID, r.fail)
 		}
